@@ -16,6 +16,9 @@ import BlocV.Spec.Lex
 -- BEGIN C18
 import BlocV.DrvC18
 -- END C18
+-- BEGIN C18F
+import BlocV.DrvC18F
+-- END C18F
 
 -- BEGIN C19
 import BlocV.DrvC19
@@ -101,6 +104,9 @@ def handleTok (hex reader : String) : String :=
 -- END C13
 
 def handle (words : List String) : String :=
+  -- BEGIN C18F
+  if let some r := DrvC18F.handle words then r else
+  -- END C18F
   -- BEGIN C11
   if let some r := DrvC11.handle words then r else
   -- END C11
